@@ -1065,4 +1065,169 @@ theorem resultC_total {r : PyM Val} (h : ∀ d, r = .error d → Caught d) : ∃
   | error d => exact ⟨.err, resultC_caught (h d rfl)⟩
 
 
+/-! ### agreement of the two denotations: macros -/
+
+/-- elements of `xs` selected by the truthiness of the corresponding `rs` -/
+def selBy : List Val → List Val → List Val
+  | r :: rs, x :: xs => if r.truthy then x :: selBy rs xs else selBy rs xs
+  | _, _ => []
+def countBy : List Val → Nat
+  | [] => 0
+  | r :: rs => if r.truthy then countBy rs + 1 else countBy rs
+
+theorem filterMV_eq (f : Val → PyM Val) : ∀ xs, filterMV f xs = (mapMV f xs >>= fun rs => .ok (selBy rs xs))
+  | [] => rfl
+  | x :: xs => by
+      simp only [filterMV, mapMV, filterMV_eq f xs]
+      cases f x with
+      | error c => rfl
+      | ok r =>
+        cases mapMV f xs with
+        | error c => rfl
+        | ok rs => rfl
+
+theorem countMV_eq (f : Val → PyM Val) : ∀ xs, countMV f xs = (mapMV f xs >>= fun rs => .ok (countBy rs))
+  | [] => rfl
+  | x :: xs => by
+      simp only [countMV, mapMV, countMV_eq f xs]
+      cases f x with
+      | error c => rfl
+      | ok r =>
+        cases mapMV f xs with
+        | error c => rfl
+        | ok rs => rfl
+
+theorem selBy_clean : ∀ {rs xs : List Val}, Val.cleanL xs = true → Val.cleanL (selBy rs xs) = true
+  | [], _, _ => rfl
+  | _ :: _, [], _ => rfl
+  | r :: rs, x :: xs, h => by
+      rw [cleanL_cons] at h
+      simp only [selBy]
+      split
+      · rw [cleanL_cons]; exact ⟨h.1, selBy_clean h.2⟩
+      · exact selBy_clean h.2
+
+section macros
+variable {fI fC : Val → PyM Val}
+
+/-- bodies of `map`/`filter`/`exists_one`: the interpreter's sub-evaluator raises an error value as CELEvalError -/
+theorem plain_bodies
+    (H : ∀ u, u.clean = true → ∀ w, fI u = .ok w → Agree w (fC u) ∧ Top w)
+    (HN : ∀ u w, u.clean = true → fC u = .ok w → w.clean = true)
+    (HE : ∀ u c, fI u = .error c → Caught c) :
+    ∀ {elems : List Val}, Val.cleanL elems = true →
+      (∀ rs, mapMV (fun u => raiseIfErr (fI u)) elems = .ok rs → mapMV fC elems = .ok rs ∧ Val.cleanL rs = true) ∧
+      (mapMV (fun u => raiseIfErr (fI u)) elems = .error .celEval → ∃ d, mapMV fC elems = .error d ∧ Caught d)
+  | [], _ => by
+      refine ⟨?_, ?_⟩
+      · intro rs h; simp [mapMV] at h; subst h; exact ⟨rfl, rfl⟩
+      · intro h; simp [mapMV] at h
+  | x :: xs, hc => by
+      rw [cleanL_cons] at hc
+      have ih := plain_bodies H HN HE hc.2
+      refine ⟨?_, ?_⟩
+      · intro rs h
+        simp only [mapMV] at h
+        obtain ⟨r, hr, h2⟩ := (bind_eq_ok _ _ _).1 h
+        obtain ⟨rs', hrs, h3⟩ := (bind_eq_ok _ _ _).1 h2
+        cases h3
+        have hr' := raiseIfErr_ok hr
+        have hA := H x hc.1 r hr'.1
+        have hCx : fC x = .ok r := by
+          rcases hA.1 with h4 | ⟨h4, _⟩
+          · exact h4
+          · exact absurd h4 hr'.2
+        have hrc : r.clean = true := by
+          rcases hA.2 with h4 | h4
+          · exact absurd h4 hr'.2
+          · exact h4
+        have := ih.1 rs' hrs
+        simp only [mapMV, hCx, this.1]
+        exact ⟨rfl, by rw [cleanL_cons]; exact ⟨hrc, this.2⟩⟩
+      · intro h
+        simp only [mapMV] at h
+        rcases (bind_eq_error _ _ _).1 h with h1 | ⟨r, hr, h2⟩
+        · rcases raiseIfErr_error h1 with h3 | _
+          · exact absurd (HE _ _ h3) not_caught_celEval
+          · -- the body returned an error value
+            unfold raiseIfErr at h1
+            split at h1
+            · rename_i hv
+              have hA := (H x hc.1 .err hv).1
+              rcases hA with h4 | ⟨_, d, hd, hdc⟩
+              · have := HN x .err hc.1 h4; simp [Val.clean] at this
+              · exact ⟨d, by simp only [mapMV, hd]; rfl, hdc⟩
+            · exact absurd (HE _ _ h1) not_caught_celEval
+        · rcases (bind_eq_error _ _ _).1 h2 with h3 | ⟨rs', _, h4⟩
+          · have hr' := raiseIfErr_ok hr
+            have hA := H x hc.1 r hr'.1
+            have hCx : fC x = .ok r := by
+              rcases hA.1 with h4 | ⟨h4, _⟩
+              · exact h4
+              · exact absurd h4 hr'.2
+            obtain ⟨d, hd, hdc⟩ := ih.2 h3
+            exact ⟨d, by simp only [mapMV, hCx, hd]; rfl, hdc⟩
+          · cases h4
+
+/-- bodies of `all`/`exists`: error values are kept as values on both sides (`build_ss_macro_eval` / `result()`) -/
+theorem ss_bodies
+    (H : ∀ u, u.clean = true → ∀ w, fI u = .ok w → Agree w (fC u) ∧ Top w)
+    (HE : ∀ u c, fI u = .error c → Caught c) :
+    ∀ {elems : List Val}, Val.cleanL elems = true →
+      ∀ rs, mapMV (fun u => ssBody (fI u)) elems = .ok rs → mapMV (fun u => resultC (fC u)) elems = .ok rs
+  | [], _, rs, h => by simp [mapMV] at h; subst h; rfl
+  | x :: xs, hc, rs, h => by
+      rw [cleanL_cons] at hc
+      simp only [mapMV] at h
+      obtain ⟨r, hr, h2⟩ := (bind_eq_ok _ _ _).1 h
+      obtain ⟨rs', hrs, h3⟩ := (bind_eq_ok _ _ _).1 h2
+      cases h3
+      have hfx : fI x = .ok r := by
+        rcases ssBody_ok hr with h4 | ⟨_, h4⟩
+        · exact h4
+        · exact absurd (HE _ _ h4) not_caught_celEval
+      have := resultC_of_agree (H x hc.1 r hfx).1
+      simp only [mapMV, this, ss_bodies H HE hc.2 rs' hrs]
+      rfl
+end macros
+
+theorem plain_macro_step {X Y : PyM (List Val)} {k : List Val → Val} {v : Val}
+    (hok : ∀ rs, X = .ok rs → Y = .ok rs ∧ Val.cleanL rs = true)
+    (herr : X = .error .celEval → ∃ d, Y = .error d ∧ Caught d)
+    (hI : catchH HI.macroBody (X >>= fun rs => .ok (k rs)) = .ok v) :
+    Agree v (Y >>= fun rs => .ok (k rs)) ∧ (v = .err ∨ ∃ rs, Val.cleanL rs = true ∧ v = k rs) := by
+  cases hX : X with
+  | ok rs =>
+    rw [hX] at hI
+    have := hok rs hX
+    simp [catchH, bind, Except.bind] at hI
+    subst hI
+    rw [this.1]
+    exact ⟨Or.inl rfl, Or.inr ⟨rs, this.2, rfl⟩⟩
+  | error c =>
+    rw [hX] at hI
+    have hc : c = .celEval := by
+      cases c <;> simp [catchH, HI.macroBody, bind, Except.bind] at hI
+      rfl
+    subst hc
+    simp [catchH, HI.macroBody, bind, Except.bind] at hI
+    subst hI
+    obtain ⟨d, hd, hdc⟩ := herr hX
+    rw [hd]
+    exact ⟨agree_err_of rfl hdc, Or.inl rfl⟩
+
+theorem fold_step {S : Sem} (P : PrimLaws S) {R : Val} (hR : ValB R) : Agree R (S.toBool R) ∧ Top R := by
+  rcases hR with rfl | hR
+  · refine ⟨?_, Or.inl rfl⟩
+    cases h : S.toBool .err with
+    | ok w => exact absurd h (P.toBoolErr w)
+    | error c => exact agree_err_of rfl (P.toBoolCaught _ _ h)
+  · cases R <;> simp [Val.isBool] at hR
+    exact ⟨Or.inl (P.toBoolBool _), Or.inr rfl⟩
+
+
+theorem ok_bind {α β} (a : α) (f : α → PyM β) : ((Except.ok a : PyM α) >>= f) = f a := rfl
+theorem error_bind {α β} (c : Exc) (f : α → PyM β) : ((Except.error c : PyM α) >>= f) = Except.error c := rfl
+
+
 end Cel
